@@ -58,7 +58,8 @@ template<typename T> static inline std::string vstr(T v) {
 
 // sign patterns of the property.  bg: 0 all positive, 1 all negative, 2 mixed;
 // ext: 0 none, 1 one moderate high value, 2 one moderate low value, 3 numeric_limits::max, 4 numeric_limits::lowest,
-//      5 +inf (floats; max for integers), 6 -inf (floats; lowest for integers), 7 every element = lowest, 8 every element = max
+//      5 +inf (floats; max for integers), 6 -inf (floats; lowest for integers), 7 every element = lowest, 8 every element = max,
+//      9 every element = -inf, 10 every element = +inf (floats; lowest / max for integers)
 template<typename T, size_t N>
 static inline void fill_pattern(Tensor<T,N>& A, int bg, int ext, size_t pos, uint32_t& s) {
     for (size_t i = 0; i < N; ++i) {
@@ -77,6 +78,8 @@ static inline void fill_pattern(Tensor<T,N>& A, int bg, int ext, size_t pos, uin
     case 6: A(pos) = ninf; break;
     case 7: for (size_t i = 0; i < N; ++i) A(i) = lo; break;
     case 8: for (size_t i = 0; i < N; ++i) A(i) = hi; break;
+    case 9: for (size_t i = 0; i < N; ++i) A(i) = ninf; break;
+    case 10: for (size_t i = 0; i < N; ++i) A(i) = pinf; break;
     default: break;
     }
 }
@@ -126,7 +129,7 @@ template<typename T, size_t N>
 void run_minmax(const char* seedmin, const char* seedmax, uint32_t ds, int all) {
     uint32_t s = ds * 97u + (uint32_t)N * 31u + (uint32_t)sizeof(T);
     for (int bg = 0; bg < 3; ++bg) for (int k = 0; k < 2; ++k) minmax_case<T,N>(seedmin, seedmax, k, (int)(rnd(s) % 3), bg, 0, 0, ds);
-    for (int ext = 1; ext <= 8; ++ext) {
+    for (int ext = 1; ext <= 10; ++ext) {
         bool every = all || ext == 1 + (int)(ds % 2) || ext == 3 + (int)((ds + N) % 4);
         if (ext >= 7) { for (int k = 0; k < 2; ++k) minmax_case<T,N>(seedmin, seedmax, k, (int)(rnd(s) % 3), 2, ext, 0, ds); continue; }
         for (size_t pos = 0; pos < N; ++pos) {
@@ -266,6 +269,52 @@ void run_rmat(uint32_t ds) {
                 chkb("isorthogonal(Q+0)", isorthogonal(Q + (T)0), true);
                 for (size_t p = 0; p < M * M; ++p) { Tensor<T,M,M> R = Q; R.data()[p] = (T)(R.data()[p] + 1); if (isorthogonal(R)) fails += " isorthogonal(Q+e" + std::to_string(p) + ")=true"; }
             }
+        }
+        std::printf("%s | %s%s\n", head.c_str(), fails.empty() ? "ok" : "FAIL", fails.substr(0, 400).c_str());
+    });
+}
+
+
+// ---------------------------------------------------------------------------------------------
+// the real horizontal steps SIMDVector<T,ABI>::sum / product / minimum / maximum, lane by lane: an extreme value in
+// EVERY lane (moderate, numeric_limits max / lowest, +-inf) on all-positive / all-negative / mixed backgrounds, sums of
+// distinct powers of two, products of small primes (exact).  Oracle-only lines.
+template<typename T, typename ABI>
+void run_hvec(const char* abiname, uint32_t ds) {
+    using V = SIMDVector<T,ABI>;
+    constexpr size_t N = V::Size;
+    std::string head = "hvec cfg=" CFGNAME " T=" + std::string(tn<T>::n()) + " abi=" + abiname + " lanes=" + std::to_string(N) + " ds=" + std::to_string(ds);
+    guarded(head, [&]{
+        std::string fails;
+        uint32_t s = ds * 2246822519u + (uint32_t)N * 7u + (uint32_t)sizeof(T);
+        alignas(64) T buf[64];
+        const T hi = std::numeric_limits<T>::max(), lo = std::numeric_limits<T>::lowest();
+        const T pinf = isfp<T>() ? std::numeric_limits<T>::infinity() : hi, ninf = isfp<T>() ? (T)(-std::numeric_limits<T>::infinity()) : lo;
+        for (int bg = 0; bg < 3; ++bg) for (size_t l = 0; l < N; ++l) for (int ext = 0; ext < 6; ++ext) {
+            for (size_t i = 0; i < N; ++i) { int m = 2 + (int)(rnd(s) % 900); buf[i] = (T)(bg == 0 ? m : bg == 1 ? -m : ((rnd(s) & 1) ? m : -m)); }
+            T e = ext == 0 ? (T)(bg == 1 ? -1 : 5000) : ext == 1 ? (T)(bg == 0 ? 1 : -5000) : ext == 2 ? hi : ext == 3 ? lo : ext == 4 ? pinf : ninf;
+            buf[l] = e;
+            T wmin = buf[0], wmax = buf[0];
+            for (size_t i = 0; i < N; ++i) { if (buf[i] < wmin) wmin = buf[i]; if (buf[i] > wmax) wmax = buf[i]; }
+            V v(buf, false);
+            T gmin = v.minimum(), gmax = v.maximum();
+            if (gmin != wmin) fails += " minimum(bg" + std::to_string(bg) + ",lane" + std::to_string(l) + ",ext" + std::to_string(ext) + ")=" + vstr<T>(gmin) + "!=" + vstr<T>(wmin);
+            if (gmax != wmax) fails += " maximum(bg" + std::to_string(bg) + ",lane" + std::to_string(l) + ",ext" + std::to_string(ext) + ")=" + vstr<T>(gmax) + "!=" + vstr<T>(wmax);
+        }
+        // sum: lane l carries 2^l (every subset sum is distinct), also negated; product: distinct small primes
+        static const int primes[16] = {2, 3, 5, 7, 11, 13, 17, 19, 23, 29, 31, 37, 41, 43, 47, 53};
+        for (int rep = 0; rep < 3; ++rep) {
+            using W = typename wide<T>::type; W ws = 0, wp = 1;
+            for (size_t i = 0; i < N; ++i) {
+                buf[i] = (T)((rep == 1 ? -1 : 1) * (long)(1L << i) + (rep == 2 ? (long)(rnd(s) % 64) * 65536 : 0));
+                ws = (W)(ws + (W)buf[i]);
+            }
+            V v(buf, false);
+            if (v.sum() != (T)ws) fails += " sum(rep" + std::to_string(rep) + ")=" + vstr<T>(v.sum()) + "!=" + vstr<T>((T)ws);
+            size_t np = isfp<T>() ? (sizeof(T) == 4 ? 5 : 11) : (sizeof(T) == 4 ? 8 : 15);      // keep the product exact in T
+            for (size_t i = 0; i < N; ++i) { buf[i] = (T)((i + rep) % N < np ? primes[(i + rep) % N] : 1) * ((i == (size_t)rep) ? -1 : 1); wp = (W)(wp * (W)buf[i]); }
+            V w(buf, false);
+            if (w.product() != (T)wp) fails += " product(rep" + std::to_string(rep) + ")=" + vstr<T>(w.product()) + "!=" + vstr<T>((T)wp);
         }
         std::printf("%s | %s%s\n", head.c_str(), fails.empty() ? "ok" : "FAIL", fails.substr(0, 400).c_str());
     });
